@@ -86,7 +86,7 @@ def r1b_try_census(ctx, chk, rule="C06.1b"):
 
 def r2_no_solution(ctx, chk, rule="C06.2"):
     f = ctx.func(VIR)
-    sx = SymX(ctx, f, "Solver", inline_depth=0).run()
+    sx = SymX(ctx, f, "Solver", inline_depth=2).run()          # a helper used in the test is judged by its content
     raises = [(i, e) for i, e in enumerate(sx.final.effects) if e[1] == "raise"]
     loops_at = [i for i, e in enumerate(sx.final.effects) if e[1] == "loop" and sx.loops[e[2]].kind == "while"]
     slist = shared.SLIST(ctx)
